@@ -567,6 +567,7 @@ def parse_sentence(c_tag_scores, c_dep_scores, length, c_possible_root_cat,
     c_finalizer = _FINALIZER_T(finalizer_thunk)
     errbuf = ctypes.create_string_buffer(512)
     L.ds_pop_log_clear()
+    cache_before = len(c_cache)
     status = L.ds_parse_sentence(
         c_tag_scores, c_dep_scores, _to_unsigned(length, 'length'),
         c_possible_root_cat._ptr, 1, 2,
@@ -576,8 +577,14 @@ def parse_sentence(c_tag_scores, c_dep_scores, length, c_possible_root_cat,
     stats['parse_calls'] += 1
     last_pops = L.ds_pop_count()
     stats['pops'] += last_pops
-    for obs in list(_observers):
-        obs(length, last_pops)
+    if trace_on[0]:
+        rec = {'length': int(length), 'pops': int(last_pops), 'status': int(status),
+               'cache_before': int(cache_before), 'cache_after': len(c_cache),
+               'max_step': int(c_config.max_step), 'nbest': int(c_config.nbest),
+               'raised': bool(pending) or status == -1}
+        if poplog_on[0]:
+            rec['poplog'] = take_pop_log()
+        trace.append(('parse', rec))
     if status == -1:
         if pending:
             raise pending[0]
@@ -587,4 +594,22 @@ def parse_sentence(c_tag_scores, c_dep_scores, length, c_possible_root_cat,
     return int(status)
 
 
-_observers = []
+trace = []
+trace_on = [False]
+poplog_on = [False]
+
+
+def start_trace(poplog=False):
+    del trace[:]
+    trace_on[0] = True
+    poplog_on[0] = bool(poplog)
+    pop_logging(bool(poplog))
+
+
+def stop_trace():
+    trace_on[0] = False
+    poplog_on[0] = False
+    pop_logging(False)
+    out = list(trace)
+    del trace[:]
+    return out
